@@ -14,6 +14,8 @@ import DimodProofs.CqmSlackFresh
 import DimodProofs.InverterOnto
 import DimodProofs.InverterOnto2
 import DimodProofs.PenaltyOpts
+import DimodProofs.PenaltyLog10
+import DimodProofs.PenaltyMultipliers
 
 /-! # C16 — constraint-to-penalty conversions penalise exactly the violating assignments
 
@@ -631,4 +633,73 @@ theorem inequality_options_from_source :
 example : ineqPlan [1, 2, 3] 0 2 4 = .slack 4 2 2 ∧ ineqPlan [1, 2, 3] 0 2 4 ≠ .skip ∧ ineqPlan [1, 2, 3] 0 2 4 ≠ .infeasible := by
   decide
 
+/-! ## round 8: the number of `log10` slack variables (D75g)
+
+`num_dqm_vars` was `int(np.ceil(np.log10(S + 1)))`: one short at `S = 10^15` and for `S = 10^k + d`, `k ≥ 16` (measured by the
+harness every run); the source now computes `len(str(S))`, extracted by `harness/translators/slack_rule.py`. -/
+
+/-- **the digit count of the source is the exact one** (`len(str(S))`, which IS the model's `clog10`), and over it the digit
+    lists are the modelled ones — whatever the (unmodelled) float pipeline `fl` would have returned -/
+theorem log10_count_rule_from_source :
+    dqmNumDigits = .decimalDigits ∧
+    (∀ (fl : Nat → Nat) (S : Nat), 1 ≤ S → slackLog10Dqm fl S = slackLog10 S) ∧
+    (∀ S : Nat, 1 ≤ S → clog10 S = decDigits S ∧ 10 ^ (decDigits S - 1) ≤ S ∧ S < 10 ^ decDigits S) :=
+  ⟨by decide, fun fl S h => slackLog10Dqm_eq fl S h (by decide),
+    fun S h => ⟨clog10_eq_decDigits S h, (decDigits_spec S h).1, (decDigits_spec S h).2⟩⟩
+
+/-- **which counts `n` are right** for the loop `for j in range(n)`: with the exact count every value `0..S` is reachable
+    (that more is reachable is D17); with ANY count that is too small (`10^n ≤ S`) every reachable value is `< 10^n ≤ S`, so
+    the slack `S` that the feasible assignment with `Σ aᵢxᵢ = lb_c` needs does not exist: a satisfying assignment is penalised -/
+theorem log10_count_characterised (n S : Nat) :
+    (n = clog10 S → ∀ t, t ≤ S → RepsOH (slackLog10By n S) t) ∧
+    (10 ^ n ≤ S → ∀ t, RepsOH (slackLog10By n S) t → t < S) := by
+  refine ⟨fun hn t ht => ?_, fun h t ht => ?_⟩
+  · have := slack_log10_covers S t ht
+    rw [hn]; simpa [slackLog10, slackLog10By] using this
+  · have := slackLog10By_lt n S t ht; omega
+
+/-- D75g, the concrete instance: `S = 10^15` has 16 digits; the float pipeline returned 15 (`log10(10^15 + 1)` rounds to
+    `15.0`), and 15 digit variables reach at most `10^15 − 1` -/
+theorem float_log10_undershoot_witness :
+    decDigits (10 ^ 15) = 16 ∧ (∀ t, RepsOH (slackLog10By 15 (10 ^ 15)) t → t < 10 ^ 15) ∧
+    (∀ t, t ≤ 10 ^ 15 → RepsOH (slackLog10By 16 (10 ^ 15)) t) := by
+  have hd : decDigits (10 ^ 15) = 16 :=
+    decDigits_unique (10 ^ 15) _ 16 (decDigits_spec (10 ^ 15) (by decide)) ⟨by decide, by decide⟩ (decDigits_pos _) (by decide)
+  refine ⟨hd, fun t ht => (log10_count_characterised 15 (10 ^ 15)).2 (by decide) t ht, fun t ht => ?_⟩
+  exact (log10_count_characterised 16 (10 ^ 15)).1 (by rw [clog10_eq_decDigits _ (by decide), hd]) t ht
+
+/-! ## round 8: `unbalanced` with a multiplier list of any length (D76g) -/
+
+/-- **a refused `unbalanced` call changes nothing**: the source reads both multipliers before the first change
+    (`unbalancedChecksFirst`, extracted from the source), and over that rule a list of fewer than two multipliers ends in
+    the always-satisfied / infeasible exit or in an `IndexError` with NOTHING added; with two or more multipliers the list
+    form is the `.pair` form `unbalanced_as_coded` speaks about -/
+theorem unbalanced_short_list_atomic :
+    unbalancedChecksFirst = true ∧
+    (∀ (label : String) (terms : List (Label × Int)) (lams : List Rat) (c lb ub : Int) (cross : Bool), lams.length < 2 →
+      bqmUnbalancedL unbalancedChecksFirst label terms lams c lb ub cross = .skipped ∨
+      bqmUnbalancedL unbalancedChecksFirst label terms lams c lb ub cross = .infeasible ∨
+      bqmUnbalancedL unbalancedChecksFirst label terms lams c lb ub cross = .indexError []) ∧
+    (∀ (label : String) (terms : List (Label × Int)) (l0 l1 : Rat) (rest : List Rat) (c lb ub : Int) (cross : Bool) bag sl,
+      bqmIneqFull label terms (.pair l0 l1) c lb ub cross .unbalanced = .ok bag sl →
+      bqmUnbalancedL unbalancedChecksFirst label terms (l0 :: l1 :: rest) c lb ub cross = .ok bag) :=
+  ⟨by decide, fun label terms lams c lb ub cross h => unbalancedL_short_atomic label terms lams c lb ub cross h,
+    fun label terms l0 l1 rest c lb ub cross bag sl h => unbalancedL_pair _ label terms l0 l1 rest c lb ub cross bag sl h⟩
+
+/-- D76g, the concrete instance: WITHOUT the check a one-element list leaves the linear biases `3·4`, `3·2` and the offset `−3` in
+    the model (the constraint `1 ≤ 4x + 2y ≤ 3` is neither always satisfied nor infeasible) -/
+theorem unbalanced_half_applied_witness :
+    ineqPlan [4, 2] 0 1 3 = .slack 3 1 2 ∧
+    bqmUnbalancedL false "c" [(.str "x", 4), (.str "y", 2)] [3] 0 1 3 false ≠ .indexError [] := by
+  refine ⟨by decide, ?_⟩
+  simp [bqmUnbalancedL, show ineqPlan [4, 2] 0 1 3 = .slack 3 1 2 by decide]
+
 end C16
+
+section AxiomsR8
+#print axioms C16.log10_count_rule_from_source
+#print axioms C16.log10_count_characterised
+#print axioms C16.float_log10_undershoot_witness
+#print axioms C16.unbalanced_short_list_atomic
+#print axioms C16.unbalanced_half_applied_witness
+end AxiomsR8
